@@ -98,6 +98,37 @@ def emit(repo, spec, H):
     for n in ("AN_DATA_LABEL", "AN_DATA_DESC", "AN_FILE_LABEL", "AN_FILE_DESC"):
         out.append("Definition %s : Z := %s." % (n, H.zlit(aenv[n])))
     out.append("Definition ANend_types_released : list Z := [%s]." % "; ".join(H.zlit(t) for t in sorted(types)))
+    # ---- mfan.c: the two switches between annotation tags and annotation types (ANIcreate: type -> tag of a new
+    #      annotation; ANtagref2id: tag given by the caller -> type, i.e. the tree the id is looked up in)
+    atxt = H.src(repo, "hdf/src/mfan.c")
+    senv2 = {}
+    senv2.update(H.all_enums(atxt))
+    senv2.update(H.defines(repo, "hdf/src/mfan.c"))
+    for fn, var, nm, what in (("ANIcreate", "ann_tag", "ANIcreate_type_to_tag", "type -> tag"),
+                              ("ANtagref2id", "type", "ANtagref2id_tag_to_type", "tag -> type")):
+        rows = H.switch_table(atxt, fn, senv2, 0)
+        items = []
+        for labels, assigns, ret in rows:
+            for lab in labels:
+                if lab == "default" or assigns.get(var) is None:
+                    continue
+                items.append("(%s, %s)" % (H.zlit(lab), H.zlit(H.ceval(assigns[var], senv2))))
+        if len(items) < 4:
+            raise ValueError("%s: switch on annotation %s not understood" % (fn, what))
+        out.append("(* hdf/src/mfan.c %s: switch, %s (assignments to %s) *)" % (fn, what, var))
+        out.append("Definition %s : list (Z * Z) := [%s]." % (nm, "; ".join(items)))
+    # ---- vio.c VSattach: the two exclusivity tests (read attach while attached for writing; write attach while attached)
+    vb = H.func_body(H.raw(repo, "hdf/src/vio.c"), "VSattach")
+    mws = re.findall(r"else\s*\{\s*if\s*\(([^)]*)\)\s*HGOTO_ERROR\s*\(\s*DFE_BADATTACH", vb)
+    if len(mws) != 2:
+        raise ValueError("VSattach: the two exclusivity tests (read branch, write branch) not found")
+    out.append("(* hdf/src/vio.c VSattach, read attachment of an existing vdata that is not read-attached, refused when: %s *)"
+               % " ".join(mws[0].split()))
+    out.append("Definition VSattach_read_refused_while_written : Z := %d."
+               % (1 if re.fullmatch(r"w->nattach(\s*(>|!=)\s*0)?", " ".join(mws[0].split())) else 0))
+    cond = " ".join(mws[1].split())
+    out.append("(* hdf/src/vio.c VSattach, write attachment of an existing vdata, refused when: %s *)" % cond)
+    out.append("Definition VSattach_write_refused_whenever_attached : Z := %d." % (1 if re.fullmatch(r"w->nattach(\s*(>|!=)\s*0)?", cond) else 0))
     # ---- mfsd.c: SD id arithmetic --------------------------------------------------------------
     sf = "mfhdf/src/mfsd.c"
     stxt = H.src(repo, sf)
